@@ -93,40 +93,6 @@ impl SnapshotWriterActor {
         })
         .wait(ctx);
     }
-
-    fn write(&mut self, ctx: &mut Context<Self>, record: SnapshotRecordDto) {
-        let mut writer = self.inner_writer.take().unwrap();
-        async move {
-            writer.write_record(&record).await?;
-            Ok(writer)
-        }
-        .into_actor(self)
-        .map(|v: anyhow::Result<SnapshotWriter>, act, ctx| {
-            if let Ok(v) = v {
-                act.inner_writer = Some(v);
-            } else {
-                ctx.stop()
-            }
-        })
-        .wait(ctx);
-    }
-
-    fn flush(&mut self, ctx: &mut Context<Self>) {
-        let mut writer = self.inner_writer.take().unwrap();
-        async move {
-            writer.flush().await?;
-            Ok(writer)
-        }
-        .into_actor(self)
-        .map(|v: anyhow::Result<SnapshotWriter>, act, ctx| {
-            if let Ok(v) = v {
-                act.inner_writer = Some(v);
-            } else {
-                ctx.stop()
-            }
-        })
-        .wait(ctx);
-    }
 }
 
 impl Actor for SnapshotWriterActor {
@@ -150,19 +116,46 @@ pub enum SnapshotWriterResponse {
 }
 
 impl Handler<SnapshotWriterRequest> for SnapshotWriterActor {
-    type Result = anyhow::Result<SnapshotWriterResponse>;
+    //one request at a time, answered when it has been carried out: the caller catalogues the snapshot as soon as
+    //Flush is answered, so by then every record has to be in the file
+    type Result = AtomicResponse<Self, anyhow::Result<SnapshotWriterResponse>>;
 
-    fn handle(&mut self, msg: SnapshotWriterRequest, ctx: &mut Self::Context) -> Self::Result {
-        match msg {
-            SnapshotWriterRequest::Record(record) => {
-                self.write(ctx, record);
-                Ok(SnapshotWriterResponse::None)
-            }
-            SnapshotWriterRequest::Flush => {
-                self.flush(ctx);
-                Ok(SnapshotWriterResponse::Path(self.path.clone()))
-            }
+    fn handle(&mut self, msg: SnapshotWriterRequest, _ctx: &mut Self::Context) -> Self::Result {
+        let writer = self.inner_writer.take();
+        let path = self.path.clone();
+        let fut = async move {
+            let mut writer = match writer {
+                Some(v) => v,
+                None => return (None, Err(anyhow::anyhow!("snapshot writer is not open"))),
+            };
+            let r = match msg {
+                SnapshotWriterRequest::Record(record) => writer
+                    .write_record(&record)
+                    .await
+                    .map(|_| SnapshotWriterResponse::None),
+                SnapshotWriterRequest::Flush => writer
+                    .flush()
+                    .await
+                    .map(|_| SnapshotWriterResponse::Path(path)),
+            };
+            (Some(writer), r)
         }
+        .into_actor(self)
+        .map(
+            |(writer, r): (
+                Option<SnapshotWriter>,
+                anyhow::Result<SnapshotWriterResponse>,
+            ),
+             act,
+             ctx| {
+                act.inner_writer = writer;
+                if r.is_err() {
+                    ctx.stop();
+                }
+                r
+            },
+        );
+        AtomicResponse::new(Box::pin(fut))
     }
 }
 
